@@ -40,6 +40,10 @@ func (c *momentumPool) AddMomentumTransaction(insertLocker sync.Locker, transact
 	}
 
 	store := c.getFrontierStore()
+	// the manager ignores a transaction which is not built on top of the frontier
+	if store.Identifier() != momentum.Identifier() {
+		return errors.Errorf("can't insert momentum %v. previous doesn't match with current frontier %v", momentum.Identifier(), store.Identifier())
+	}
 	detailed, err := store.PrefetchMomentum(momentum)
 	if err != nil {
 		return err
